@@ -61,5 +61,68 @@ fn main() {
             Err(_) => println!("panic {what}"),
         }
     }
+    // short streams in the dev profile (debug assertions, overflow checks): every sequence of <= 3 of 11 class
+    // words (<= 4 of the first 7) per language x 7 thresholds x 4 entry points; a panic is reported, not fatal
+    let short: [(&str, fn() -> Language, [&str; 11]); 7] = [
+        ("en", Language::english, ["one", "five", "twenty", "third", "hundred", "and", "twentieth", "thousand", "point", "zero", "xyzzy"]),
+        ("fr", Language::french, ["un", "cinq", "vingt", "troisième", "cent", "et", "vingtième", "mille", "virgule", "zéro", "xyzzy"]),
+        ("es", Language::spanish, ["uno", "cinco", "veinte", "tercero", "cien", "y", "vigésimo", "mil", "coma", "cero", "xyzzy"]),
+        ("pt", Language::portuguese, ["um", "cinco", "vinte", "terceiro", "cem", "e", "vigésimo", "mil", "vírgula", "zero", "xyzzy"]),
+        ("it", Language::italian, ["uno", "cinque", "venti", "terzo", "cento", "e", "ventesimo", "mille", "virgola", "zero", "xyzzy"]),
+        ("de", Language::german, ["ein", "fünf", "zwanzig", "dritte", "hundert", "und", "zwanzigste", "tausend", "komma", "null", "xyzzy"]),
+        ("nl", Language::dutch, ["een", "vijf", "twintig", "derde", "honderd", "en", "twintigste", "duizend", "komma", "nul", "xyzzy"]),
+    ];
+    let mut hs = vec![];
+    for (code, mk, words) in short {
+        hs.push(std::thread::spawn(move || {
+            let lang = mk();
+            let mut calls = 0u64;
+            let mut panics: Vec<String> = vec![];
+            let mut idx: Vec<usize> = vec![];
+            fn rec(idx: &mut Vec<usize>, words: &[&str; 11], lang: &Language, calls: &mut u64, panics: &mut Vec<String>, code: &str) {
+                if !idx.is_empty() {
+                    let text = idx.iter().map(|&i| words[i]).collect::<Vec<_>>().join(" ");
+                    let toks: Vec<Tok> = text.split(' ').map(|t| Tok(t.to_string())).collect();
+                    for thr in [0.0, 10.0, 50.0, 1000.0, f64::INFINITY, f64::NAN, -1.0] {
+                        *calls += 4;
+                        let r = std::panic::catch_unwind(std::panic::AssertUnwindSafe(|| {
+                            let _ = text2digits(&text, lang);
+                            let _ = replace_numbers_in_text(&text, lang, thr);
+                            let _ = find_numbers(toks.iter(), lang, thr);
+                            let _ = find_numbers_iter(toks.iter(), lang, thr).count();
+                        }));
+                        if r.is_err() && panics.len() < 5 {
+                            panics.push(format!("panic {code} {text:?} threshold {thr}"));
+                        }
+                    }
+                }
+                let max = if idx.len() >= 3 { 7 } else { 11 };
+                if idx.len() < 4 {
+                    for i in 0..max {
+                        if idx.len() == 3 && idx.iter().any(|&j| j >= 7) {
+                            break;
+                        }
+                        idx.push(i);
+                        rec(idx, words, lang, calls, panics, code);
+                        idx.pop();
+                    }
+                }
+            }
+            rec(&mut idx, &words, &lang, &mut calls, &mut panics, code);
+            (code, calls, panics)
+        }));
+    }
+    std::panic::set_hook(Box::new(|_| {}));
+    for h in hs {
+        match h.join() {
+            Ok((code, calls, panics)) => {
+                for p in &panics {
+                    println!("{p}");
+                }
+                println!("ok short streams {code}: {calls} calls, {} panicking inputs shown", panics.len());
+            }
+            Err(_) => println!("panic in the short-stream thread"),
+        }
+    }
     println!("done");
 }
